@@ -26,10 +26,14 @@ WHOLE_DEG_ND = [4, 5, 6, 8, 9, 10, 12, 15, 18, 24]
 
 
 # =======================================================================================
-def gen_recipe(rng, fmt):
+def gen_recipe(rng, fmt, tier="quick"):
     base = fmt.split("_")[0]
     nf = rng.randint(3, 9)
     nd = rng.choice([4, 5, 6, 8, 9, 12])
+    big = tier == "thorough" and rng.random() < 0.3
+    if big:
+        nf = rng.randint(8, 20)
+        nd = rng.choice([12, 18, 24, 36])
     r = {
         "nf": nf, "nd": nd,
         "freq": {"kind": rng.choice(["log", "log", "lin"]), "f0": rng.choice([0.04, 0.05, 0.0625]), "r": rng.choice([1.1, 1.2, 1.3]), "df": rng.choice([0.02, 0.03])},
@@ -42,7 +46,7 @@ def gen_recipe(rng, fmt):
         "lon0": rng.choice([150.0, 0.0, 170.5, 359.0 - 6, -20.0]), "lat0": rng.choice([-30.0, 0.0, 45.25, -75.0]),
         "dlon": rng.choice([0.25, 0.5, 1.0]), "dlat": rng.choice([0.25, 0.5, 1.0]),
     }
-    nt = rng.choice([1, 1, 2, 3, 4, 5])
+    nt = rng.choice([1, 1, 2, 3, 4, 5]) if not big else rng.choice([3, 6, 9])
     if base == "swan":
         if rng.random() < 0.45:
             nlat, nlon = rng.choice([(1, 1), (2, 3), (3, 2), (1, 3), (2, 1), (2, 2), (3, 4)])
@@ -95,7 +99,7 @@ def gen_plan(rng, tier="quick"):
             slot = rng.randrange(nfiles)
             name = f"f{slot}.{EXT[fmt]}"
             kw = {}
-            recipe = gen_recipe(rng, fmt)
+            recipe = gen_recipe(rng, fmt, tier)
             nt = dict((k, n) for k, n in recipe["dims"]).get("time", 1)
             if fmt.startswith(("swan", "octopus")) and rng.random() < 0.45:
                 kw["ntime"] = rng.choice([1, 2, 3, nt, nt + 1])
